@@ -56,7 +56,7 @@ def run(chk):
         cases.append(("m%d" % i, ["newcompiler", "defs ext_s " + hx(b"x"), "add " + hx(src.encode()), "getrules", "scanner 0",
                                    "sdefs ext_s " + hx(subj), "scan " + hx(b"z")]))
         mq.append("rem %s %s" % (hx(subj), sexp))
-    out, err = vlib.run_cases(hscan, cases, timeout=3000, args=["120"])
+    out, err = vlib.run_cases(hscan, cases, timeout=3000, args=["120"], jobs=16)
     mres, _ = vlib.run_lines(model, mq, timeout=3000)
     magree = 0
     for i in range(nm):
